@@ -4,13 +4,15 @@ CONSTANTS
   AllSchedules = FALSE
   PermuteModules = FALSE
   NB0 = {0, 1, 2}
-  Variants = {"none", "same", "ext", "extm0", "recv"}
+  Variants = {"none", "same", "ext", "extm0", "emptyblk", "recv"}
   WithB1 = {FALSE, TRUE}
   B1Vft = {FALSE, TRUE}
   Clash = {"no"}
   DDs = {"none", "plain", "diamond"}
   DDVft = {FALSE}
   Ptrs = {4, 8}
+  Lead = {FALSE, TRUE}
+  EmptyBlocks = {FALSE, TRUE}
   Split = {TRUE}
 INVARIANTS Replay
 CHECK_DEADLOCK FALSE
